@@ -295,9 +295,19 @@ func cmdCheck(args []string) int {
 	knownHits := 0
 	unstable := 0
 	var failed []*Obligation
+	reachAll := map[string]int{}
+	reachDead := map[string][]*Obligation{}
 	for _, o := range obls {
 		if o.Expect == "sat" {
-			// vacuity canary: must NOT be provable
+			// vacuity canary: must NOT be provable. A single return whose path facts are contradictory may be dead
+			// code under the precondition; a function none of whose returns is reachable proves nothing.
+			if strings.Contains(o.Name, "/vacuity:reach@") {
+				reachAll[o.Func]++
+				if o.Status == "unsat" {
+					reachDead[o.Func] = append(reachDead[o.Func], o)
+				}
+				continue
+			}
 			if o.Status == "unsat" {
 				failed = append(failed, o)
 			}
@@ -318,10 +328,17 @@ func cmdCheck(args []string) int {
 		}
 		failed = append(failed, o)
 	}
+	deadReturns := 0
+	for _, f := range sortedKeys(reachAll) {
+		deadReturns += len(reachDead[f])
+		if len(reachDead[f]) == reachAll[f] {
+			failed = append(failed, reachDead[f][0])
+		}
+	}
 	exit := 0
 	for _, o := range failed {
 		if o.Expect == "sat" {
-			fmt.Printf("VACUOUS: %s: the contract's preconditions are contradictory\n", o.Name)
+			fmt.Printf("VACUOUS: %s: the contract's preconditions (or, for vacuity:reach, the invariants and axioms on every path to a return) are contradictory\n", o.Name)
 			rp := writeReplay(*replayDir, *prop, o, "vacuity: requires unsatisfiable")
 			fmt.Printf("VIOLATION property=%s replay=%s no-failing-input-found\n", *prop, rp)
 			violations++
@@ -382,6 +399,7 @@ func cmdCheck(args []string) int {
 			"generator_warnings":       warnings,
 			"integer_model":            "int/int64 mathematical (no overflow modelled); uint8/16/32/64 and int8/16/32 wrap modulo 2^N",
 			"vacuity_checks":           len(obls) - nObl,
+			"returns_proved_unreachable": deadReturns,
 		}
 		if opts.allThree {
 			cov["unstable_obligations"] = unstable
